@@ -154,7 +154,7 @@ func (b *spinBarrier) wait() {
 
 func stressBarrier(r *hx.Run, rng *hx.Rng, kind string) bool {
 	base := strings.TrimPrefix(kind, "barrier-")
-	for attempt := 0; attempt < barrierAttempts; attempt++ {
+	for attempt := 0; attempt < attemptsPerRound(r, barrierAttempts); attempt++ {
 		before := len(r.Findings)
 		if !barrierOnce(r, rng, kind, base) {
 			return false
@@ -206,14 +206,22 @@ func barrierOnce(r *hx.Run, rng *hx.Rng, kind, base string) bool {
 			return true
 		}
 	}
-	n := rng.Range(8, 24)
+	// two shapes: one goroutine per subscription of the window, or ("strided") 2-3 goroutines that each unsubscribe every
+	// 2nd / 3rd subscription of a longer window back to back - neighbours are then unlinked by different goroutines over
+	// a longer stretch of time, so the unlink operations overlap much more often than with a single release
+	strided := rng.Bool()
+	n, k := rng.Range(8, 24), rng.Range(2, 8)
+	if strided {
+		k = rng.Range(6, 16)
+		n = k + rng.Range(4, 12)
+		r.Count("stress:" + kind + ":strided")
+	}
 	for i := 0; i < n; i++ {
 		if !subscribe() {
 			return true
 		}
 	}
 	first := len(rd.subs) - n
-	k := rng.Range(2, 8)
 	if k > n-3 {
 		k = n - 3
 	}
@@ -223,27 +231,41 @@ func barrierOnce(r *hx.Run, rng *hx.Rng, kind, base string) bool {
 	r.CountN("stress:"+kind+":behind", len(rd.subs)-(m+k))
 
 	concurrentWrites := rng.Range(0, 3)
-	bar := &spinBarrier{total: int32(k)}
+	var groups [][]*subLog
+	if strided {
+		g := rng.Range(2, 3)
+		groups = make([][]*subLog, g)
+		for i, s := range window {
+			groups[i%g] = append(groups[i%g], s)
+		}
+	} else {
+		order := make([]int, k)
+		for i := range order {
+			order[i] = i
+		}
+		for i := k - 1; i > 0; i-- {
+			j := rng.Intn(i + 1)
+			order[i], order[j] = order[j], order[i]
+		}
+		for _, i := range order {
+			groups = append(groups, []*subLog{window[i]})
+		}
+	}
+	bar := &spinBarrier{total: int32(len(groups))}
 	if concurrentWrites > 0 {
 		bar.total++
 	}
 	var wg sync.WaitGroup
-	order := make([]int, k)
-	for i := range order {
-		order[i] = i
-	}
-	for i := k - 1; i > 0; i-- {
-		j := rng.Intn(i + 1)
-		order[i], order[j] = order[j], order[i]
-	}
-	for _, i := range order {
-		s := window[i]
+	for _, grp := range groups {
+		grp := grp
 		wg.Add(1)
 		go func() {
 			defer wg.Done()
 			bar.wait()
-			if p := hx.Safely(func() { rd.doUnsub(s) }); p != "" {
-				r.Fail("panic", "unsubscribe panicked: "+p, sig("panic"))
+			for _, s := range grp {
+				if p := hx.Safely(func() { rd.doUnsub(s) }); p != "" {
+					r.Fail("panic", "unsubscribe panicked: "+p, sig("panic"))
+				}
 			}
 		}()
 	}
